@@ -350,15 +350,19 @@ Theorem C19_augment_none_is_empty_scan :
 Proof. exact AugC19Safe.aug_loop_none_starved. Qed.
 Print Assumptions C19_augment_none_is_empty_scan.
 
-(* Partial, ONE premise left (round 3 had two; chain_ok is now C01's theorem): for a free row r of a
-   state whose x / y are partial inverses, IF no rebuild of scan along the run comes out empty
-   (~ Starved g0 = aug_scan_nonempty), THEN the search returns, every to_do / scan / ready entry is
-   below n and the lists fit into n entries, the exit column is below n, and the flip loop (fuel n+1)
-   returns with x', y' of length n that are partial inverses again.
-   What is still open — here and in C01 — is aug_scan_nonempty from has_PM: in exact arithmetic an empty
-   rebuild means the rows {r} + y[ready] see only the columns of ready (a Hall violator, C01_hall_block),
-   PROVIDED every finite reduced-cost distance is below the initial d = inf = sum(c) + 1; that adequacy
-   of `inf` is the missing lemma.  So augment's memory safety depends on has_PM and on that bound. *)
+(* Partial — and its premise is FALSE for some inputs inside C19's quantifier (known finding F20).
+   Statement: for a free row r of a state whose x / y are partial inverses, IF no rebuild of scan along
+   the run comes out empty (~ Starved g0 = aug_scan_nonempty), THEN the search returns, every to_do /
+   scan / ready entry is below n and the lists fit into n entries, the exit column is below n, and the
+   flip loop (fuel n+1) returns with x', y' of length n that are partial inverses again.
+   The premise cannot be derived from has_PM for the kernel as written: the sentinel inf = sum(c) + 1 used
+   as initial distance is NOT above every reduced cost once prices are negative, so on maximally sparse
+   problems with forced expensive pairs a rebuild of scan finds no column and the C code reads
+   p_scan[low] past `up` — an out-of-bounds access (F20: lapjv([0,0,1,1,2,3,3],[1,2,1,3,2,0,3],
+   [14,1,2,14,14,2,2], True, 0) segfaults; C19_augment_scan_nonempty_refuted below).  What this theorem
+   still says: an empty rebuild is the ONLY way augment leaves its arrays (with
+   C19_augment_none_is_empty_scan), and with a true infinity as sentinel (the one-line repair
+   `inf = np.inf`, not compilable here) the Hall argument C01_hall_block would apply. *)
 Theorem C19_augment_row_safe_partial :
   forall (r n : nat) (rows : list (list (nat * Lapjv.ext))) (x y : list nat) (v : list Lapjv.ext) (inf : Lapjv.ext),
   (forall i j c, In (j, c) (LapjvArr.row rows i) -> (j < n)%nat) ->
@@ -413,3 +417,12 @@ Print Assumptions C19_reexp_C01_lapjv_fixed_pm.
 Theorem C19_reexp_C10_heap_init_ok : ltac:(let t := type of Centro.Props.C10.C10_heap_init_ok in exact t).
 Proof. exact Centro.Props.C10.C10_heap_init_ok. Qed.
 Print Assumptions C19_reexp_C10_heap_init_ok.
+
+(* ================================================================== round 5 *)
+(* F20, re-exported from C01 (kernel-evaluated witness, n = 4, has_PM, well formed, 0 passes of augmenting
+   row reduction): the faithful model with the code's sentinel gives None — its rebuild of scan is empty,
+   i.e. aug_scan_nonempty / ~Starved is FALSE inside the quantifier — while the same model with a true
+   infinity returns the optimum.  Memory safety of augment fails for the kernel as written. *)
+Theorem C19_augment_scan_nonempty_refuted : ltac:(let t := type of Centro.Props.C01.C01_inf_sentinel_refuted in exact t).
+Proof. exact Centro.Props.C01.C01_inf_sentinel_refuted. Qed.
+Print Assumptions C19_augment_scan_nonempty_refuted.
